@@ -220,7 +220,8 @@ def gen_job(rng, root, can_setuid):
         src = os.path.join(root, "src%d" % i)
         with open(src, "wb") as f:
             f.write(c)
-        writers.append({"oid": md5hex(c), "src": src, "data": c.hex()})
+        # `transfer()` passes check_exists=False (it made a status query of its own some time before)
+        writers.append({"oid": md5hex(c), "src": src, "data": c.hex(), "check_exists": rng.random() >= 0.4})
     style = rng.random()
     if style < 0.35:   # long runs of one writer (exposes check-then-act windows)
         sched = []
@@ -278,7 +279,8 @@ def model_request(job, real):
         sched += [w] * n
     root_sem = root_semantics(job)
     return {"op": "sched", "root": root_sem, "objs": job["pre"], "watch": job["watch"],
-            "threads": [{"oid": w["oid"], "tmp": i, "chunks": [w["data"]] if w["data"] else []} for i, w in enumerate(job["writers"])],
+            "threads": [{"oid": w["oid"], "tmp": i, "chunks": [w["data"]] if w["data"] else [], "check_exists": w.get("check_exists", True)}
+                        for i, w in enumerate(job["writers"])],
             "sched": sched}
 
 
@@ -410,6 +412,7 @@ def check_controlled(ctx, job, real):
             "schedule": job["schedule"], "executed": [[s["w"], s["kind"]] for s in real["steps"]]}
     ctx.case(case)
     ctx.count("controlled:%s:%d" % ("nonroot" if job["uid"] else "root", len(job["writers"])))
+    ctx.count("controlled:check_exists_false_writers=%d" % sum(1 for w in job["writers"] if not w.get("check_exists", True)))
     if real.get("error"):
         raise core.Infra("controlled run: %s" % real["error"])
     model = ctx.driver.ask(model_request(job, real))
@@ -431,6 +434,27 @@ def check_controlled(ctx, job, real):
         if not failed:
             ctx.oracle(v is not None and v["ok"] and v["prot"], case,
                        {"why": "after all writers finished a requested object is missing, incomplete or unprotected", "oid": oid, "state": v})
+
+
+def verify_two_writers(ctx):
+    """transfer(..., verify=True) by two writers of one object under the pinned interleaving of c16_verify_child"""
+    root = ctx.mkdtemp()
+    p = subprocess.run([PY, "-m", "harness.c16_verify_child", root], cwd=core.VERIF, capture_output=True, text=True, timeout=120)
+    if p.returncode != 0 or not p.stdout.strip():
+        raise core.Infra("c16_verify_child failed: %s" % p.stderr[-400:])
+    r = json.loads(p.stdout.strip().splitlines()[-1])
+    case = {"mode": "verify=True, two writers of one object, pinned interleaving", "result": r}
+    ctx.case(case)
+    ctx.count("verify_two_writers pinned=%s" % r["pinned"])
+    succeeded = [w for w in "AB" if r[w] == {"failed": []}]
+    # the property as stated: all succeed and the object is there; at the very least a writer that reports success has its object
+    lost = bool(succeeded) and not r["object_ok"]
+    sig = None
+    if r["pinned"] and r["A"] == {"failed": [r["oid"]]} and r["B"] == {"failed": []} and not r["object_ok"]:
+        sig = "verify-two-writers-verification-removes-the-other-writers-object"
+    ctx.oracle(len(succeeded) == 2 and r["object_ok"] and not lost, case,
+               {"why": "two writers transferring one object with verify=True: a writer failed, or a writer reported success while the object is missing", "result": r},
+               signature=sig)
 
 
 def run(ctx):
@@ -471,6 +495,7 @@ def run(ctx):
         for tr in traces:
             conformance(ctx, "writer", tr, root, None)
     controlled(ctx, ctx.n(40, 600))
+    verify_two_writers(ctx)
 
 
 def search(ctx):
